@@ -314,7 +314,7 @@ class Statics:
         self.param_flow(pid, "ascmhl.commands.flatten_history", "destination_path", [])
         self.param_flow(pid, "ascmhl.commands.flatten", "destination_path", [])
         for q in HISTORY_READERS + ["ascmhl.commands.flatten_history"]:
-            self.param_flow(pid, q, "root_path", ["os.path.join(os.getcwd(), root_path)"])
+            self.param_flow(pid, q, "root_path", ["os.path.abspath(root_path)", "os.path.join(os.getcwd(), root_path)"])
         # (5) sessions that are never committed: verify -dh builds a session but must not reach commit
         for q in ("ascmhl.commands.verify_directory_hash_subcommand", "ascmhl.commands.verify_entire_folder"):
             if q in self.repo.funcs:
